@@ -32,7 +32,11 @@ let rec pairs = function a :: b :: r -> (a, b) :: pairs r | _ -> []
 
 let no_result (s : string) = s = "PANIC" || (String.length s >= 4 && String.sub s 0 4 = "HANG")
 
+(* " [input multiplied by 2^k ...]" for the cases the implementation saw at another scale *)
+let scale_note = ref ""
+
 let check_rect id kind kname (g : z geomT) (obs : string) =
+  let fail id k n d = fail id k n (d ^ !scale_note) in
   let pts = point_set g in
   if no_result obs then fail id "SPEC" ("mbr_" ^ kname ^ "_total") ("RotatedMinimum...BoundingRectangle: " ^ obs)
   else if is_empty g then begin
@@ -132,6 +136,10 @@ let () =
       try
         if cls = "float" then check_float id f else
         let g0 = parse_zdump f.(2) in
+        scale_note := (if Array.length f > 10 && f.(10) <> "0"
+                       then " [the implementation was given the input multiplied by 2^" ^ f.(10) ^ "; its outputs are shown divided by 2^" ^ f.(10) ^ "]"
+                       else "");
+        let fail id k n d = fail id k n (d ^ !scale_note) in
         let empty = is_empty g0 in
         (* A polygon whose holes have points outside its shell is ill-formed; the implementation
            reads exterior rings only (so does the model), the property text says "control points".
@@ -148,6 +156,24 @@ let () =
         (* the hull reads exterior rings only: say how often that differs from "all control points" *)
         if not empty then
           count (if not ambiguous then "hull_pts_are_all_control_pts" else "holes_outside_shell");
+        (* class rescaled: say, from the exact model, how often the first edge of the ring (i = 0 in
+           findMBR, the rectangle a metric that no longer orders the candidates leaves in place) is
+           NOT an optimal base edge, and how often no edge is optimal for both metrics *)
+        (if cls = "rescaled" then
+           match hull_pts pts with
+           | HPoly ring ->
+             (match candidates ring with
+              | c0 :: _ as cs ->
+                let opt kind =
+                  let m = List.fold_left (fun b c -> let x = cand_metric kind c in if qle_bool b x then b else x)
+                            (cand_metric kind c0) cs in
+                  (m, List.map (fun c -> qle_bool (cand_metric kind c) m) cs) in
+                let (ma, oa) = opt MArea and (mw, ow) = opt MWidth in
+                if not (qle_bool (cand_metric MArea c0) ma) then count "rescaled_first_edge_not_area_optimal";
+                if not (qle_bool (cand_metric MWidth c0) mw) then count "rescaled_first_edge_not_width_optimal";
+                if not (List.exists2 (fun a b -> a && b) oa ow) then count "rescaled_no_edge_optimal_for_both"
+              | [] -> ())
+           | _ -> count "rescaled_degenerate");
         (* which branch of the model *)
         (if empty then count "res_empty_input" else
            match hull_pts pts with
